@@ -245,6 +245,17 @@ def check_pipe(c, repo):
             [x.id for x in ast.walk(m.ast.value) if isinstance(x, ast.Name)] and any(callee_last(k) == 'decode' for k in node_calls(m))]
     c.need(len(apps) == 1, 'append of the decoded item not found')
     an = apps[0]
+    if isinstance(an.ast, ast.Assign) and isinstance(an.ast.targets[0], ast.Name) and isinstance(an.ast.value, ast.Call) and callee_last(an.ast.value) == 'decode':
+        # the decoded chunk is first put into a local: the append is the statement that adds that local to the accumulated text
+        tv = an.ast.targets[0].id
+        adds = [m for m in g2.nodes if m.kind == 'stmt' and ((isinstance(m.ast, ast.AugAssign) and isinstance(m.ast.op, ast.Add) and is_name(m.ast.value, tv)) or
+                                                               (isinstance(m.ast, ast.Assign) and isinstance(m.ast.value, ast.BinOp) and isinstance(m.ast.value.op, ast.Add)
+                                                                and is_name(m.ast.value.right, tv) and isinstance(m.ast.targets[0], ast.Name)
+                                                                and is_name(m.ast.value.left, m.ast.targets[0].id)))]
+        if len(adds) == 1 and g2.path(an, {adds[0]}, skip_labels=('exc',)) is not None:
+            okp, _p = g2.must_pass(an, {gn, g2.exit}, {adds[0]}, skip_labels=('exc',))
+            if okp:
+                an = adds[0]
     okd = isinstance(an.ast, ast.AugAssign) and isinstance(an.ast.op, ast.Add) or \
         (isinstance(an.ast, ast.Assign) and isinstance(an.ast.value, ast.BinOp) and isinstance(an.ast.value.op, ast.Add)
          and is_name(an.ast.value.left, an.ast.targets[0].id))
